@@ -350,12 +350,6 @@ Proof.
   apply convert_to_binary_spec; [destruct W; lia|apply field_bits_bound; lia].
 Qed.
 
-Lemma is_complete_wf : forall bv bytes off w, wf_field bv bytes off w -> is_complete bv w = true.
-Proof.
-  intros bv bytes off w [W Hobb Hw Hoff Hext]. unfold is_complete, bv_ok, bv_size_in_bits. rewrite Hobb.
-  cbn [ob_ok ob_size]. lia.
-Qed.
-
 (* Ok(): the verdict of IsBcd on the field's bits = every nibble of the field is a decimal digit *)
 Lemma bcd_ok_spec : forall bv bytes off w, wf_field bv bytes off w ->
   bcd_ok true bv w = Some (all_nibbles_le9 (bcd_digits w) (field_bits (cv_of bv bytes) off w)).
